@@ -67,6 +67,18 @@ def real(case):
         tmax = -3
 
     def run():
+        if case['micro'] is None and not case['bad']:
+            # a call on OTHER data with the same lag times and tmax just before: results must not leak between calls
+            # (temporary objects of the previous call are freed, their addresses get re-used)
+            occ = sorted({x for t in case['trajs'] for x in t})
+            if len(occ) >= 2:
+                drng = core.Rng(len(case['trajs'][0]) * 7 + tmax)
+                decoy = [np.array([drng.choice(occ) for _ in range(len(t))]) for t in case['trajs']]
+                try:
+                    mh.msm.ck_test(decoy, lags, tmax)
+                except Exception:  # noqa
+                    pass
+                del decoy
         ck = mh.msm.ck_test(arg, lags, tmax)
         keys = [k for k in ck if k != 'md']
         states = None
